@@ -132,15 +132,54 @@ MALFORMED = [(12, 31, 2, 300), (12, 30, 5, 900), (1, 1, 1, 7), (3, 5, 2, 480), (
              (5, 5, 1, 7200), (2, 30, 2, 600), (7, 1, 1, 96)]
 
 
-def drive(cfg):
-    """Build the real model and run the real simulate driver-only. Returns (rows, res or None, err)."""
+def window_oracle(model, cfg, rows, leap):
+    """What `generate()` cut out of the rural file, before any step: hour n of the window must be the rural row
+    whose OWN stamp is start + n hours (located through the stamps, never by index arithmetic), and the
+    forcing lists must hold that row's values. For an 8784-row file (the model is a 365-day clock driven by row
+    offsets) only the internal consistency is demanded: the lists hold the contiguous rows from
+    simTime.timeInitial on. Returns None or (message, observed, expected)."""
+    import s1_util as S
+    M, D, days, dt = cfg
+    N = 24 * days
+    st = model.simTime
+    f = model.forcIP
+    if leap:
+        first = st.timeInitial
+    else:
+        idx = S.stamp_index(rows)
+        first = idx.get((M, D, 1))
+        if first is None:
+            return ('rural file has no row stamped %d/%d hour 1' % (M, D), None, 'a row')
+        if st.timeInitial != first or st.timeFinal != first + N - 1:
+            return ('window bounds (timeInitial, timeFinal) are not the rows stamped start .. start + %d hours'
+                    % (N - 1), [st.timeInitial, st.timeFinal], [first, first + N - 1])
+    if len(f.temp) != N:
+        return ('rural rows read for the window', len(f.temp), N)
+    for n in range(N):
+        r = rows[first + n]
+        if not leap and (int(r[1]), int(r[2]), int(r[3])) != stamp_dt(24 * doy0(M, D) + n):
+            return ('stamp of rural row %d of the window' % n, r[1:4], list(stamp_dt(24 * doy0(M, D) + n)))
+        exp = (float(r[12]), float(r[21]), float(r[20]), float(r[9]), float(r[6]) + 273.15, float(r[8]),
+               float(r[15]), float(r[14]))
+        got = (f.infra[n], f.wind[n], f.uDir[n], f.pres[n], f.temp[n], f.rHum[n], f.dif[n], f.dir[n])
+        if got != exp:
+            return ('forcing lists of window hour %d (stamp %s/%s h%s) do not hold the values of that rural row '
+                    '(infra, wind, uDir, pres, temp, rHum, dif, dir)' % (n, r[1], r[2], r[3]), list(got), list(exp))
+    return None
+
+
+def drive(cfg, epw=None, rows=None, leap=False):
+    """Build the real model and run the real simulate driver-only. Returns (rows, res or None, err).
+    With `rows` (the parsed rural file) the window oracle is evaluated on the generated model first."""
     M, D, days, dt = cfg
     try:
         with contextlib.redirect_stdout(io.StringIO()):
-            model = simdriver.build_model(M, D, days, dt)
+            model = simdriver.build_model(M, D, days, dt, epw=epw)
     except Exception as e:  # noqa: BLE001
         return 24 * days, None, classify_exc(type(e).__name__, str(e))
+    wmsg = window_oracle(model, cfg, rows, leap) if rows is not None else None
     res = simdriver.driver_only_run(model)
+    res.window_msg = wmsg
     if res.error:
         return res.rows, res, classify_exc(res.error, res.error_msg)
     return res.rows, res, None
@@ -159,36 +198,52 @@ class LogRow(list):
         list.__setitem__(self, k, v)
 
 
-def make_rural(src, dst):
+def make_rural(src, dst, variant=None, wind2=False):
     """Copy of a shipped EPW whose wind column holds a value pattern that differs between neighbouring
-    rows and between rows 24 apart: w_k = ((7k) mod 120) / 10 (some below windMin = 1)."""
-    with open(src, newline='') as f:
-        lines = f.read().split('\n')
-    out = []
+    rows and between rows 24 apart: w_k = ((7k) mod 120) / 10 (some below windMin = 1); with `wind2` the
+    pattern has two decimals, ((37k + 5) mod 1200) / 100. `variant`: header / leap variant of s1_util."""
+    import s1_util as S
+    rows = S.load_epw(src)
+    if variant:
+        rows = S.apply_variant(rows, variant)
     k = 0
-    for i, ln in enumerate(lines):
-        if i >= 8 and ln.strip():
-            cells = ln.split(',')
-            cells[21] = '%.1f' % (((7 * k) % 120) / 10.0)
-            ln = ','.join(cells)
-            k += 1
-        out.append(ln)
-    with open(dst, 'w', newline='') as f:
-        f.write('\n'.join(out))
+    for i in range(8, len(rows)):
+        rows[i][21] = ('%.2f' % (((37 * k + 5) % 1200) / 100.0)) if wind2 else ('%.1f' % (((7 * k) % 120) / 10.0))
+        k += 1
+    # written as plain text lines like the shipped files (no cell of a data row needs quoting)
+    S.save_epw(rows, dst)
     return k
 
 
-def real_run(chk, M, D, days, dt, epw_name):
+def real_run(chk, M, D, days, dt, epw_name, variant=None, precision=None, windmin=None, wind2=False,
+             second=True):
     """Full simulation + write_epw on a rural file with a patterned wind column.
-    Returns (cases for the `wrow` tie, oracle message or None)."""
+    Returns (cases for the `wrow` tie, oracle message or None, stamps_ok, data rows).
+
+    variant: header / leap-file variant (s1_util); precision: epw_precision; windmin: minimum wind speed;
+    wind2: rural wind with two decimals. For 8760-row files the row of record n is located by its stamp
+    (start + n hours); for an 8784-row file only internal consistency is demanded (the rows read are the rows
+    written, contiguous; every other row unchanged) - the model is a 365-day clock."""
+    from uwg import UWG
     work = chk.work()
-    rural = os.path.join(work, 'rural_%s' % epw_name)
-    nrows = make_rural(simdriver.epw_path(epw_name), rural)
+    leap = bool(variant) and 'leap8784' in variant
+    tag = '%d_%d_%d_%s' % (M, D, dt, ''.join(c for c in (variant or 'base') if c.isalnum())[:24])
+    rural = os.path.join(work, 'rural_%s_%s' % (tag, epw_name))
+    nrows = make_rural(simdriver.epw_path(epw_name), rural, variant, wind2)
+
+    def build(outname):
+        m = UWG.from_param_file(simdriver.param_path(), epw_path=rural, new_epw_dir=work, new_epw_name=outname)
+        m.month, m.day, m.nday, m.dtsim = M, D, days, dt
+        if precision is not None:
+            m.epw_precision = precision
+        if windmin is not None:
+            m.windmin = windmin
+        m.generate()
+        return m
     model = None
     try:
         with contextlib.redirect_stdout(io.StringIO()):
-            model = simdriver.build_model(M, D, days, dt, epw=rural, new_epw_dir=work,
-                                          new_epw_name='out_%d_%d_%d.epw' % (M, D, dt))
+            model = build('out_%s.epw' % tag)
             model.simulate()
             log = []
             rows = []
@@ -201,7 +256,7 @@ def real_run(chk, M, D, days, dt, epw_name):
     except Exception as e:  # noqa: BLE001 - inside the window nothing may raise
         where = 'generate' if model is None else 'simulate/write_epw'
         return [], ('%s raised %s' % (where, type(e).__name__), str(e)[:300],
-                    'a complete run: every hour of the window recorded and written'), True, 8760
+                    'a complete run: every hour of the window recorded and written'), True, nrows
     with open(rural, newline='') as f:
         orig = list(csv.reader(f))[8:]
     with open(model.new_epw_path, newline='') as f:
@@ -211,6 +266,7 @@ def real_run(chk, M, D, days, dt, epw_name):
     N = 24 * days
     j0 = doy0(M, D)
     wmin = model.geoParam.windMin
+    prec = model.epw_precision
     # rows written, in order of iJ (four cells each)
     written = []
     for (idx, col) in log:
@@ -218,21 +274,36 @@ def real_run(chk, M, D, days, dt, epw_name):
             written.append(idx)
     cases = []
     msg = None
-    for n in range(min(N, len(written))):
-        idx = written[n]
-        row = new[idx]
-        cases.append(('wrow M=%d D=%d days=%d n=%d' % (M, D, days, n),
-                      'ok row=%d stamp=%d,%d,%d HI=%d HF=%d win=%d' % (
-                          idx, int(row[1]), int(row[2]), int(row[3]),
-                          model.simTime.timeInitial, model.simTime.timeFinal,
-                          len(model.forcIP.temp))))
+    if not leap:
+        for n in range(min(N, len(written))):
+            idx = written[n]
+            row = new[idx]
+            cases.append(('wrow M=%d D=%d days=%d n=%d' % (M, D, days, n),
+                          'ok row=%d stamp=%d,%d,%d HI=%d HF=%d win=%d' % (
+                              idx, int(row[1]), int(row[2]), int(row[3]),
+                              model.simTime.timeInitial, model.simTime.timeFinal,
+                              len(model.forcIP.temp))))
     if len(written) != N:
         msg = ('write_epw rewrote %d rows, expected %d' % (len(written), N), len(written), N)
-    stamps_ok = all((int(r[1]), int(r[2]), int(r[3])) == stamp_dt(k) for k, r in enumerate(orig))
+    if wmin != (1.0 if windmin is None else float(windmin)):
+        msg = ('minimum wind speed in force', wmin, windmin)
+    stamps_ok = all((int(r[1]), int(r[2]), int(r[3])) == stamp_dt(k) for k, r in enumerate(orig)) if not leap \
+        else all((int(r[1]), int(r[2]), int(r[3])) == stamp_dt(k) for k, r in enumerate(orig[:59 * 24]))
+    # the rural row of record n: by its own stamp for a file of 365 whole days ...
+    by_stamp = {}
+    for k, r in enumerate(orig):
+        by_stamp.setdefault((int(r[1]), int(r[2]), int(r[3])), k)
     for n in range(N):
         if msg:
             break
-        k = 24 * j0 + n                                   # rural row n of the window
+        if leap:
+            k = written[n]                                # ... for an 8784-row file: whichever row was written
+            if n and written[n] != written[n - 1] + 1:
+                msg = ('rows written for records %d and %d are not adjacent' % (n - 1, n), written[n - 1:n + 1],
+                       'contiguous rows')
+                break
+        else:
+            k = by_stamp.get(stamp_dt(24 * j0 + n)) if stamps_ok else 24 * j0 + n
         src = orig[k]
         wd = model.WeatherData[n]
         exp_wind = max(float(src[21]), wmin)
@@ -241,40 +312,45 @@ def real_run(chk, M, D, days, dt, epw_name):
                'uDir': float(src[20]), 'wind': exp_wind}
         got = {f: getattr(wd, f) for f in exp}
         if got != exp:
-            msg = ('hourly forcing record %d differs from rural row %d of the window' % (n, n),
-                   got, exp)
+            msg = ('hourly forcing record %d differs from %s' % (
+                n, 'the rural row its result is written to (row %d)' % k if leap else
+                'rural row %d of the window (the row stamped start + %d hours)' % (n, n)), got, exp)
         elif written[n] != k:
-            msg = ('record %d written to data row %d, its rural row is %d' % (n, written[n], k),
-                   written[n], k)
-        elif new[k][21] != '{:.1f}'.format(exp_wind):
-            msg = ('wind written to row %d' % k, new[k][21], '{:.1f}'.format(exp_wind))
-        elif stamps_ok and (int(new[k][1]), int(new[k][2]), int(new[k][3])) != stamp_dt(24 * j0 + n):
+            msg = ('record %d written to data row %d, its rural row (stamped start + %d hours) is %d' % (
+                n, written[n], n, k), written[n], k)
+        elif new[k][21] != '{0:.{1}f}'.format(exp_wind, prec):
+            msg = ('wind written to row %d (stamp %s/%s h%s; rural wind %s, minimum wind %r, epw_precision %d)' % (
+                k, src[1], src[2], src[3], src[21], wmin, prec), new[k][21], '{0:.{1}f}'.format(exp_wind, prec))
+        elif abs(float(new[k][21]) - exp_wind) > 0.5 * 10.0 ** (-prec) * (1 + 1e-9):
+            msg = ('wind written to row %d is not the rural wind raised to the minimum within the rounding of '
+                   '%d decimals' % (k, prec), new[k][21], exp_wind)
+        elif stamps_ok and not leap and (int(new[k][1]), int(new[k][2]), int(new[k][3])) != stamp_dt(24 * j0 + n):
             msg = ('stamp of the row written for record %d' % n, new[k][1:4],
                    list(stamp_dt(24 * j0 + n)))
     if not msg:
+        wset = set(written)
         for k in range(len(orig)):
-            inside = 24 * j0 <= k < 24 * j0 + N
+            inside = k in wset
             if not inside and new[k][:22] != orig[k][:22]:
                 msg = ('row %d outside the window was modified' % k, new[k][:22], orig[k][:22])
                 break
             if inside and (new[k][:6] != orig[k][:6] or new[k][9:21] != orig[k][9:21]):
                 msg = ('unmodelled cells of row %d changed' % k, new[k][:22], orig[k][:22])
                 break
-    if not msg:
+    if not msg and second:
         # the same object generated and simulated AGAIN (after write_epw, same rural file, same
         # window): hour n must still be forced by rural row n of the file, not by anything the
         # first run wrote
         try:
             with contextlib.redirect_stdout(io.StringIO()):
                 # (a new, un-instrumented object: the logging rows above would hide in-place writes)
-                model = simdriver.build_model(M, D, days, dt, epw=rural, new_epw_dir=work,
-                                              new_epw_name='out2_%d_%d_%d.epw' % (M, D, dt))
+                model = build('out2_%s.epw' % tag)
                 model.simulate()
                 model.write_epw()
                 model.generate()
                 model.simulate()
             for n in range(N):
-                src = orig[24 * j0 + n]
+                src = orig[written[n]]
                 wd = model.WeatherData[n]
                 exp = {'temp': float(src[6]) + 273.15, 'rHum': float(src[8]), 'pres': float(src[9]),
                        'wind': max(float(src[21]), wmin)}
@@ -350,6 +426,64 @@ def run(chk):
                'exactly one record per hour, taken at it*dt = 3600(n+1); no exception',
                mismatches=len(bad), branches={'steps observed': n_steps})
 
+    # ---- tie 1b: the same on legal but never-varied rural files ------------------------------------
+    # Header cells the model does not interpret (leap-year flag, daylight-saving period, holidays, start week-day,
+    # soil-property cells, comments ...) must not move the window: hour n is the row STAMPED start + n hours.
+    import s1_util as S
+    base_rows = S.load_epw(simdriver.epw_path())
+    work = chk.work()
+    names = S.pick_variants(rng, 4 if not thorough else 14, must=('leapflag-Yes', 'actual-year-header'))
+    names += ['leap8784', 'leap8784noflag+weekday-Wednesday']
+    vcases, vbad, vruns, vbr = [], [], 0, {}
+    picks = [d for d in DIVISORS if d >= (100 if not thorough else 20)]
+    for name in names:
+        rows = S.apply_variant(base_rows, name)
+        path = S.save_epw(rows, os.path.join(work, 'c02v_%d.epw' % names.index(name)))
+        leap = 'leap8784' in name
+        # one start from March on (where a shifted month table would show), one anywhere
+        starts = [rng.choice([d for d in dates() if d[0] >= 3]), rng.choice(dates())]
+        if thorough:
+            starts += [rng.choice(dates()) for _ in range(3)] + [(3, 1), (2, 28), (12, 31)]
+        for (M, D) in starts:
+            days = min(365 - doy0(M, D), rng.randint(1, 3))
+            cfg = (M, D, days, rng.choice(picks))
+            nrow, res, err = drive(cfg, epw=path, rows=rows, leap=leap)
+            base = 'drv dt=%d M=%d D=%d days=%d file=%d' % (cfg[3], M, D, days, len(rows) - 8)
+            vruns += 1
+            vbr[name.split('-')[0]] = vbr.get(name.split('-')[0], 0) + 1
+            if err:
+                vcases.append((base, err))
+                vbad.append((cfg, name, ('generate/simulate raised on a legal rural file', err, 'a complete run')))
+                continue
+            h, rh = digests(res)
+            vcases.append((base, 'ok steps=%d digest=%d nrec=%d rdigest=%d' % (
+                len(res.steps), h, len(res.records), rh)))
+            msg = res.window_msg or oracle_driver(cfg, res)
+            if msg:
+                vbad.append((cfg, name, msg))
+    chk.correspond(
+        'simulate(driver-only)~driver on rural-file variants', 'C02', vcases,
+        rule='as tie 1, on copies of the Singapore file in which cells the window must not depend on are varied: '
+             'leap-year flag Yes on an 8760-row file, an actual-year header (flag, DST period, holidays, Friday start, '
+             'soil properties), random members of the groups week-day / DST period (m/d, wrapping, '
+             'day-of-year, textual) / holidays / filled soil-property cells / comments-design-location text, and '
+             '8784-row leap files with and without the flag; per file one start from March on and one anywhere; '
+             'the model is the SAME driver (it has no header input; file= gives the number of data rows)',
+        classify=lambda line, impl: impl.split(' ')[0] + ' file=' + line.split('file=')[1])
+    for cfg, name, msg in vbad[:3]:
+        chk.violation('impl-violation', 'C02 window/row oracle on a rural-file variant (generate + driver-only simulate)',
+                      case={'month': cfg[0], 'day': cfg[1], 'nday': cfg[2], 'dtsim': cfg[3],
+                            'epw': simdriver.EPWS[0], 'epw_variant': name},
+                      observed={'what': msg[0], 'value': msg[1]}, expected=msg[2],
+                      how='s1_util.apply_variant(load_epw(Singapore), epw_variant) -> rural file; '
+                          'simdriver.build_model(month, day, nday, dtsim, epw=file); c02.window_oracle')
+    chk.direct('window+row-oracle(rural-file variants)', vruns, vruns,
+               'after generate() on each variant file: simTime.timeInitial/timeFinal are the rows whose own stamp is '
+               'start .. start + 24*nday - 1 hours (located through the stamps) and the forcing lists hold exactly '
+               'those rows\' values; then the row oracle of tie 1 on the driver-only run. 8784-row files: only that '
+               'the lists hold the contiguous rows from timeInitial on (365-day clock, no stamp demanded)',
+               mismatches=len(vbad), branches=vbr)
+
     # ---- tie 2: un-stubbed runs + write_epw ------------------------------------------------------
     reals = [(rng.choice(dates()[:364]), 1, 300, simdriver.EPWS[0])]
     reals.append(((2, 28), 2, 150, simdriver.EPWS[0]))
@@ -357,15 +491,31 @@ def run(chk):
         for name in simdriver.EPWS[1:]:
             reals.append((rng.choice(dates()[:360]), rng.randint(1, 3), rng.choice([300, 200, 100]), name))
         reals.append(((12, 30), 2, 300, simdriver.EPWS[1]))
+    reals = [r + ({},) for r in reals]
+    # families never varied by the shipped examples (each fine alone; the written wind must stay the rural wind
+    # raised to the minimum whatever the combination):
+    late = [d for d in dates() if d[0] >= 3 and d != (12, 31)]
+    for rep in range(1 if not thorough else 3):
+        hv = rng.choice(['leapflag-Yes', 'actual-year-header', 'leapflag-Yes+weekday-Monday'])
+        reals.append((rng.choice(late), 1, 300, simdriver.EPWS[0], dict(variant=hv, second=False)))
+        reals.append((rng.choice(dates()[:364]), 1, 300, simdriver.EPWS[0],
+                      dict(precision=rng.choice([2, 3, 4]), windmin=rng.choice([0.25, 0.75, 1.25, 2.05]),
+                           second=False)))
+        reals.append((rng.choice(dates()[:364]), 1, 300, simdriver.EPWS[0],
+                      dict(precision=rng.choice([2, 3, 16]), windmin=rng.choice([None, 0.85, 1.25]), wind2=True,
+                           variant=rng.choice(S.GROUPS['weekday'] + S.GROUPS['dst']), second=False)))
+        reals.append((rng.choice([(3, 1), (2, 28)] + late[:200:7]), 2 if rep == 1 else 1, 300, simdriver.EPWS[0],
+                      dict(variant=rng.choice(['leap8784', 'leap8784+holidays-listed']),
+                           precision=rng.choice([1, 3]), second=False)))
     wcases, wbad = [], []
-    for ((M, D), days, dt, name) in reals:
-        cs, msg, stamps_ok, nrows = real_run(chk, M, D, days, dt, name)
+    for ((M, D), days, dt, name, opts) in reals:
+        cs, msg, stamps_ok, nrows = real_run(chk, M, D, days, dt, name, **opts)
         wcases += cs
-        if not stamps_ok or nrows != 8760:
-            chk.notes.append('input assumption violated by %s: rows=%d stamps_ok=%s' % (
-                name, nrows, stamps_ok))
+        if not stamps_ok or nrows != (8784 if 'leap8784' in (opts.get('variant') or '') else 8760):
+            chk.notes.append('input assumption violated by %s %s: rows=%d stamps_ok=%s' % (
+                name, opts, nrows, stamps_ok))
         if msg:
-            wbad.append(((M, D, days, dt, name), msg))
+            wbad.append(((M, D, days, dt, name, opts), msg))
     chk.correspond('write_epw(row,stamp)~writeRow/stamp', 'C02', wcases,
                    rule='full generate+simulate+write_epw on a shipped file whose wind column is replaced '
                         'by a row-identifying pattern; the data row actually assigned for each record '
@@ -375,14 +525,19 @@ def run(chk):
     for cfg, msg in wbad[:3]:
         chk.violation('impl-violation', 'C02 oracle on generate+simulate+write_epw',
                       case={'month': cfg[0], 'day': cfg[1], 'nday': cfg[2], 'dtsim': cfg[3],
-                            'epw': cfg[4] + ' with wind column w_k=((7k) mod 120)/10'},
+                            'epw': cfg[4] + ' with wind column w_k=((7k) mod 120)/10', 'options': cfg[5]},
                       observed={'what': msg[0], 'value': msg[1]}, expected=msg[2])
     chk.direct('row-oracle(real run + write_epw)', len(reals), len(reals),
                'WeatherData[n] equals rural row n of the window parsed independently from the file '
                '(temp, rHum, pres, infra, dir, dif, uDir; wind = max(wind, windMin)); the row rewritten '
-               'for record n is data row 24*j0+n, its wind cell is "{:.1f}" of that maximum, its stamp is '
-               'start + n hours (hour-ending); all other rows and the unmodelled cells are unchanged',
-               mismatches=len(wbad))
+               'for record n is the data row stamped start + n hours (= row 24*j0+n), its wind cell is '
+               '"{:.<epw_precision>f}" of that maximum (and within half a unit of the last decimal of it); all other '
+               'rows and the unmodelled cells are unchanged. Besides the shipped setting (precision 1, minimum wind '
+               '1, one-decimal rural wind, shipped header) explored: header variants with the leap flag / actual-'
+               'year header and a start from March on; epw_precision 2,3,4,16 x minimum wind 0.25/0.75/0.85/1.25/'
+               '2.05; rural wind with two decimals; 8784-row leap files (only: rows read = rows written, contiguous, '
+               'everything else unchanged)',
+               mismatches=len(wbad), branches={'runs': len(reals)})
     # the doubles named in theorem asis_float_rowidx_wrong are the ones CPython computes
     import math
     ph = 48 / 3600.
@@ -413,7 +568,13 @@ def replay(chk, path):
     cfg = (c['month'], c['day'], c['nday'], c['dtsim'])
     if 'write_epw' in (v.get('theorem_or_tie') or ''):
         name = c['epw'].split(' ')[0]
-        _, msg, _, _ = real_run(chk, cfg[0], cfg[1], cfg[2], cfg[3], name)
+        _, msg, _, _ = real_run(chk, cfg[0], cfg[1], cfg[2], cfg[3], name, **(c.get('options') or {}))
+    elif c.get('epw_variant'):
+        import s1_util as S
+        rows = S.apply_variant(S.load_epw(simdriver.epw_path()), c['epw_variant'])
+        path = S.save_epw(rows, os.path.join(chk.work(), 'replay.epw'))
+        _, res, err = drive(cfg, epw=path, rows=rows, leap='leap8784' in c['epw_variant'])
+        msg = ('generate raised', err, 'a model') if res is None else (res.window_msg or oracle_driver(cfg, res))
     else:
         rows, res, err = drive(cfg)
         msg = oracle_driver(cfg, res) if res is not None else ('generate raised', err, 'a model')
